@@ -161,6 +161,8 @@ type exitInfo struct {
 }
 
 type FnExec struct {
+	labelled   map[string]*labelledGuard
+	labelOrder []string
 	eng      *Engine
 	q        *Q
 	top      *ssa.Function
